@@ -11,6 +11,7 @@ import Tickit.Proof.WinScrollStep
 import Tickit.Proof.WinScrollCh
 import Tickit.Proof.WinNodup
 import Tickit.Proof.WinPen
+import Tickit.Proof.WinMockResize
 import Tickit.Props.C02
 /-
   C01 — The flushed screen equals the painter's-model composition of the window tree.
@@ -1557,6 +1558,38 @@ example : ∃ st' shots, flushRender inheritBeh penState penState.tree = .ok (st
   | ok r =>
     exact ⟨r.1, r.2, rfl, rootOk_of_visible hg.tinv.ok hvis, fun hd => (hg.flags hd).1, hg.tinv.ok.wf, hg.tinv.ok.rootWin,
       inherit_repaintsP _ _⟩
+
+/-! ### resizing the library's mock terminal (`tickit_mockterm_resize`)
+
+  The second harness configuration judges "no stale or misplaced cell survives a flush" on the cells of the library's own
+  mock terminal, also across `tickit_mockterm_resize`.  `Proof/WinMockResize.lean` models that function on the driver's cell
+  grid in the order of its statements; the theorems below say it is the resize `termResize` (and with it `Reach.resize`,
+  `C01_full`) is about. -/
+
+/-- **`tickit_mockterm_resize` is the terminal resize of the model**: a mock terminal that displays the model's screen and
+    is resized with the default pen in force displays `resizedScreen` — the screen `termResize` continues with — at every
+    cell of the new size, for every old and new size (wider or narrower, taller or shorter, more columns than lines or
+    fewer). -/
+theorem mock_resize_is_model_resize (st : St) (m : Mock) (hf : m.Full) (hml : m.lines = st.tlines) (hmc : m.cols = st.tcols)
+    (hl0 : 0 ≤ st.tlines) (hc0 : 0 ≤ st.tcols) (hb : m.blank = Cell.never)
+    (hs : ∀ l c, 0 ≤ l → l < st.tlines → 0 ≤ c → c < st.tcols → m.display l c = st.screen l c)
+    (nl nc : Int) (l c : Int) (h0 : 0 ≤ l) (h1 : l < nl) (h2 : 0 ≤ c) (h3 : c < nc) :
+    (m.resize nl nc).display l c = resizedScreen st nl nc l c :=
+  mockResize_screen st m hf hml hmc hl0 hc0 hb hs nl nc l c h0 h1 h2 h3
+
+/-- **Every cell inside both the old and the new size is kept by the resize** (the window layer exposes only the strips
+    the terminal gained, so these cells are not repainted by the next flush: they have to be right already), and the
+    resized terminal has no unallocated cell. -/
+theorem mock_resize_keeps_shared_cells (m : Mock) (hf : m.Full) (hl0 : 0 ≤ m.lines) (hc0 : 0 ≤ m.cols) (nl nc : Int) :
+    (∀ l c, 0 ≤ l → l < min m.lines nl → 0 ≤ c → c < min m.cols nc → (m.resize nl nc).display l c = m.display l c) ∧
+    (m.resize nl nc).Full :=
+  ⟨fun l c h0 h1 h2 h3 => mockResize_keeps_shared m hf hl0 hc0 nl nc l c h0 h1 h2 h3, mockResize_full m hf hl0 hc0 nl nc⟩
+
+/-- Non-vacuity: 2 lines of 5 columns (more columns than lines) showing `A B C D E`, made 3 × 7: line 1 keeps all five
+    letters and gains two blanks. -/
+theorem mock_resize_demo :
+    ((List.range 7).map fun (c : Nat) => ((demoMock.resize 3 7).display 1 (c : Int)).glyph) = [65, 66, 67, 68, 69, 32, 32] := by
+  decide
 
 /-! ### facts regenerated from the C source on every run -/
 
